@@ -3,7 +3,7 @@
    grammar relations and checkers: Spec.v; correspondence entry points: Run.v. *)
 From Coq Require Import List NArith ZArith Bool.
 From TV Require Import Lib.Obs C43.Model C43.Model2 C43.Spec C43.Run
-  C43.ProofsStart C43.ProofsEscape C43.ProofsHeader C43.ProofsTotal C43.ProofsUrl C43.ProofsDate C43.ProofsCheck.
+  C43.ProofsStart C43.ProofsEscape C43.ProofsHeader C43.ProofsTotal C43.ProofsUtf8 C43.ProofsUrl C43.ProofsDate C43.ProofsCheck.
 Import ListNotations.
 Local Open Scope N_scope.
 
@@ -83,6 +83,14 @@ Theorem C43_parse_header_and_cookie_total :
 Proof. intros s. split; [apply parse_header_result|apply parse_cookie_keys_distinct]. Qed.
 Print Assumptions C43_parse_header_and_cookie_total.
 
+(* _parseparam (the quoted-string scanner of commit 8596f7f) only cuts: for every line and
+   every scanner state, re-joining the fields with ';' gives the text back *)
+Theorem C43_parseparam_partitions_the_line :
+  forall s inq esc cur,
+    rev cur ++ s = join_with 59 (fst (split_params s inq esc cur) :: snd (split_params s inq esc cur)).
+Proof. exact split_params_join. Qed.
+Print Assumptions C43_parseparam_partitions_the_line.
+
 (* split_host_and_port: a port is returned only for host ":" digits [newline] (non-empty
    newline-free host, 1..4300 Unicode decimal digits, their value); otherwise the netloc
    comes back whole; and every host ":" digits netloc is split *)
@@ -98,18 +106,38 @@ Theorem C43_split_host_and_port_total_and_exact :
 Proof. split; [exact split_host_and_port_sound|exact split_host_and_port_complete]. Qed.
 Print Assumptions C43_split_host_and_port_total_and_exact.
 
-(* ---- url_concat (PARTIAL: ASCII URL and arguments, simple head; see NOTES.md) ---- *)
+(* ---- UTF-8 and the query codec (all Unicode text) ---- *)
+(* bytes.decode('utf-8', 'replace') inverts str.encode('utf-8'): no replacement character *)
+Theorem C43_utf8_decode_inverts_encode :
+  forall s bs, utf8_encode s = Some bs -> utf8_decode bs = s.
+Proof. intros s bs H. apply (utf8_decode_encode s bs H). Qed.
+Print Assumptions C43_utf8_decode_inverts_encode.
+
+(* parse_qsl(urlencode(l), keep_blank_values=True) = l for every list of pairs that urlencode
+   accepts, and urlencode raises (UnicodeEncodeError) exactly when a key or value contains a
+   surrogate (or a value beyond U+10FFFF) *)
+Theorem C43_urlencode_parse_qsl_roundtrip :
+  (forall l q, urlencode l = Some q -> parse_qsl q = l)
+  /\ (forall l, (exists q, urlencode l = Some q)
+                <-> Forall (fun kv => Forall encodable_cp (fst kv) /\ Forall encodable_cp (snd kv)) l).
+Proof. split; [exact parse_qsl_urlencode|exact urlencode_some_iff]. Qed.
+Print Assumptions C43_urlencode_parse_qsl_roundtrip.
+
+(* ---- url_concat (PARTIAL: simple head only; see NOTES.md) ---- *)
 (* full statement wanted: for every URL accepted by urlparse and every argument list, the
    result has the same scheme/netloc/path/params and fragment and its query parses to the old
-   pairs followed by the arguments.  Proved: the same, for the modelled scope. *)
+   pairs followed by the arguments.  Proved: exactly that for every URL whose part before
+   '?'/'#' is a simple head (reproduced verbatim by urlparse/urlunparse: assumed, tied by the
+   correspondence), with arbitrary Unicode query, fragment and arguments; the only other
+   outcome is UnicodeEncodeError, exactly when some pair is not encodable. *)
 Theorem C43_url_concat_preserves_and_appends_partial :
-  (forall l, Forall ascii_pair l -> parse_qsl (urlencode l) = Some l)
-  /\ (forall u args, url_in_scope u args = true ->
-        exists r, url_concat u args = UcOk r /\ url_result_ok u args r = true).
+  forall u args, url_in_scope u = true ->
+    (exists r, url_concat u args = UcOk r /\ url_encodable u args = true /\ url_result_ok u args r = true)
+    \/ (url_concat u args = UcEncodeError /\ url_encodable u args = false).
 Proof.
-  split; [exact parse_qsl_urlencode|].
-  intros u args H. destruct (url_in_scope_ok u args H) as [r Hr]. exists r. split; [exact Hr|].
-  apply url_concat_ok. exact Hr.
+  intros u args H. destruct (url_in_scope_cases u args H) as [[r [Hr He]]|[Hr He]].
+  - left. exists r. repeat split; [exact Hr|exact He|apply url_concat_ok; exact Hr].
+  - right. split; assumption.
 Qed.
 Print Assumptions C43_url_concat_preserves_and_appends_partial.
 
